@@ -57,6 +57,11 @@ def arena_realloc (c : Cfg) (newSize : Nat) (v : VS) : VS × Outcome (Option Uni
   if arena_serves c newSize then ({ v with slots := resizeSlots v.slots (newSize / c.esz) }, .ok (some ()))
   else (v, .ok none)
 
+/-- `Alloc::alloc(&mut a, layout)` / `a.alloc_zeroed(layout)` for a new vector: a buffer of `size / size_of::<T>()`
+uninitialised slots when the arena serves the request -/
+def arena_alloc_buf (c : Cfg) (size : Nat) : Option (List (Option Elem)) :=
+  if arena_serves c size then some (List.replicate (size / c.esz) none) else none
+
 /-- `self.a.dealloc(ptr, layout)`: nothing the vector model sees -/
 def arena_dealloc (v : VS) : VS × Outcome Unit := (v, .ok ())
 
